@@ -8,10 +8,10 @@ SPEC_MODE = "spec"
 KEEP_PREFIX = 2            # `clock T0` and `load …` are never removed by the shrinker
 SIZES = {"quick": 1500, "thorough": 40000}
 BATCH = 1000
-RULE = ("one `load` of 1-4 circuit-breaking rules (all three strategies, 1-3 breakers on the main resource, sometimes a second "
+RULE = ("a first `load` of 1-4 circuit-breaking rules (all three strategies, 1-3 breakers on the main resource, sometimes a second "
         "resource; bucket counts {0,1,2,5,10}, statistic intervals that do / do not divide, ProbeNum in {0,1,2,3}, MinRequestAmount "
         "0..10, thresholds on a 1/1000 grid incl. 0 and 1, retry timeouts 1..3000 ms, ~4% invalid rules) followed by 40-260 ops built from "
-        "phases incl. ramps (bad completions first, good ones lift the window to the minimum), window roll-overs after good-only buckets, full recoveries (trip, deadline, ProbeNum good probes), "
+        "phases incl. reloads (`load` / `loadres` mid-history: rules kept, modified stat-reusably or not, dropped, added, split, duplicated, reordered), ramps (bad completions first, good ones lift the window to the minimum), window roll-overs after good-only buckets, full recoveries (trip, deadline, ProbeNum good probes), "
         "~20% of the entries with WithBatchCount(n), n in {0,1,2,3,5,70000}, ~2% odd input (unknown / double exit, resource without rules, re-used entry id) and "
         "bursts of entries with bad/good completions (response time around MaxAllowedRtMs), waits landing on bucket "
         "boundaries / retry deadline -1,0,+1 / whole windows, probes (good, bad, several in flight), stragglers exited in a later "
@@ -63,6 +63,34 @@ def geometry(r):
     if n == 0 or r["stat"] == 0 or r["stat"] % n != 0:
         n = 1
     return n, max(1, r["stat"] // n)
+
+
+def variant(rng, r, compatible):
+    """a rule derived from `r`: stat-reusable with it (same resource, strategy, interval, bucket count) but usually not
+    equal, or - `compatible=False` - with another window geometry / strategy (a fresh statistic)"""
+    v = dict(r)
+    if compatible:
+        for f in rng.sample(["thr", "retry", "minreq", "probe", "maxrt"], rng.choice([1, 1, 2])):
+            if f == "thr":
+                v["thr"] = rng.choice([0, 1, 2, 3, 4, 6]) if v["kind"] == 2 else rng.choice([0.1, 0.25, 0.5, 0.75, 1.0])
+            elif f == "retry":
+                v["retry"] = rng.choice([5, 50, 100, 1000])
+            elif f == "minreq":
+                v["minreq"] = rng.choice([0, 1, 2, 3, 5])
+            elif f == "probe":
+                v["probe"] = rng.choice([0, 1, 3])
+            else:
+                v["maxrt"] = rng.choice([0, 1, 5, 10, 50])      # for the error strategies this field is not compared: still equal
+    else:
+        w = rng.randrange(3)
+        if w == 0:
+            v["kind"] = (v["kind"] + rng.choice([1, 2])) % 3
+            v["thr"] = rng.choice([1, 2, 3]) if v["kind"] == 2 else rng.choice([0.25, 0.5, 1.0])
+        elif w == 1:
+            v["buckets"] = rng.choice([b for b in [0, 1, 2, 5, 10] if b != v["buckets"]])
+        else:
+            v["stat"] = rng.choice([x for x in [10, 100, 200, 1000, 5000] if x != v["stat"]])
+    return v
 
 
 class G:
@@ -141,6 +169,63 @@ class G:
             d = rng.choice([r["stat"], r["stat"] + 1, max(1, r["stat"] - 1), 2 * r["stat"] + 3, r["retry"] * 2, 10 * r["stat"]])
         self.clock(max(0, d))
 
+    def reload(self):
+        """LoadRules / LoadRulesOfResource in the middle of the history: rules kept equal (breaker kept with its state),
+        modified but stat-reusable (new closed breaker on the old counters), modified beyond that (fresh counters), dropped,
+        added (mostly stat-compatible with an existing one: competes for its statistic), reordered, duplicated; or one
+        rule *split* into two stat-compatible unequal ones.  Followed by traffic so that the counters matter."""
+        rng = self.rng
+        main = [r for r in self.rules if r["res"] == RES]
+        other = [r for r in self.rules if r["res"] != RES]
+        k = rng.random()
+        if main and k < 0.25:
+            r = rng.choice(main)
+            new = [x for x in main if x is not r or rng.random() < 0.3]
+            new += [variant(rng, r, True) for _ in range(rng.choice([2, 2, 3]))]
+        else:
+            new = []
+            for r in main:
+                q = rng.random()
+                if q < 0.30:
+                    new.append(dict(r))
+                elif q < 0.60:
+                    new.append(variant(rng, r, True))
+                elif q < 0.72:
+                    new.append(variant(rng, r, False))
+            for _ in range(rng.choice([0, 1, 1, 2])):
+                if main and rng.random() < 0.7:
+                    new.append(variant(rng, rng.choice(main), True))
+                else:
+                    new.append(gen_rule(rng, RES))
+            if main and rng.random() < 0.15:
+                new.append(dict(rng.choice(main)))          # duplicate of an existing rule
+        if rng.random() < 0.3:
+            rng.shuffle(new)
+        new = new[:4]
+        if not new:
+            new = [gen_rule(rng, RES)] if rng.random() < 0.8 else []
+        if rng.random() < 0.5:
+            self.ops.append(f"loadres {RES} " + " ".join(rule_tok(r) for r in new))
+            self.rules = other + new
+        else:
+            if other and rng.random() < 0.4:
+                other = [variant(rng, x, rng.random() < 0.7) if rng.random() < 0.5 else x for x in other]
+            allr = new + other
+            if rng.random() < 0.3:
+                rng.shuffle(allr)
+            self.ops.append("load " + " ".join(rule_tok(r) for r in allr))
+            self.rules = allr
+        if not any(r["res"] == RES for r in self.rules):
+            # an empty resource is legal (requests pass); give it a rule again before the next phase needs one
+            self.ops.append(f"entry {self.nid + 1} {RES}")
+            self.nid += 1
+            r = gen_rule(rng, RES)
+            self.ops.append(f"loadres {RES} {rule_tok(r)}")
+            self.rules = self.rules + [r]
+        self.obs(1.0)
+        for _ in range(rng.randint(0, 6)):
+            self.request(rng.random() < 0.8, strict=True)
+
     def ramp(self):
         """bad completions first while the window is still below MinRequestAmount, then good ones lift it to the
         minimum with the ratio / count already at the threshold: the *good* completion must trip the breaker"""
@@ -190,7 +275,9 @@ class G:
             return self.roll()
         if k < 0.20:
             return self.recover()
-        k = (k - 0.20) / 0.80
+        if k < 0.28:
+            return self.reload()
+        k = (k - 0.28) / 0.72
         if k < 0.30:
             # burst with a given share of bad completions
             p = rng.choice([0.0, 0.3, 0.5, 0.8, 1.0])
@@ -324,7 +411,7 @@ META = {
     "level_note": ("Trusted: Lean kernel; axioms propext/Classical.choice/Quot.sound; Go harness, virtual util.Clock, canonical printing. The trip "
                    "predicate (float64 slow/total, 1e-8 tolerance, uint64(T)) is a parameter of the theorems and is evaluated with Lean Float in the "
                    "driver (same binary64 ops); generated thresholds lie on a 1/1000 grid so no decision is within rounding of the tolerance "
-                   "boundary. Modelled not verified: sequential use only (concurrency is C12), one LoadRules per case (reload is C13/C14), "
+                   "boundary. Modelled not verified: sequential use only (concurrency is C12); rule equality by threshold bit pattern (the 1e-8 tolerance of isEqualsTo belongs to C13/C14); "
                    "uint64 counters as naturals."),
     "design_ref": "DESIGN.md 6.C03",
 }
